@@ -13,7 +13,7 @@ from vmon.libutil import monitored, xtce_element
 
 LEVEL = "exploration"
 SHARDS = {"quick": 16, "thorough": 16}
-MUST = ["string.whole", "string.term", "string.lead", "binary", "len.fixed", "len.dyn", "len.lookup", "len.zero", "len.not-multiple-of-8",
+MUST = ["len.lookup-zero", "len.fractional-reference", "string.whole", "string.term", "string.lead", "binary", "len.fixed", "len.dyn", "len.lookup", "len.zero", "len.not-multiple-of-8",
         "offset.unaligned", "charset.multi", "charset.single", "route.ctor", "route.xml", "expected.errors", "dyn.calibrated", "dyn.raw"]
 RULE = ("case = (string/binary encoding IR, values of the referenced length parameters, content bits, bit offset, "
         "construction route). Directed grid: 8 concrete character sets (+ generic UTF-16/UTF-32 with byteOrder) x "
@@ -64,6 +64,10 @@ def run_case(ctx, rng, t, lib, assign, fb, offset, route, hostile=""):
         ctx.count("dyn.calibrated" if e.length.calibrated else "dyn.raw")
     if L == 0:
         ctx.count("len.zero")
+        if lk == "lookup":
+            ctx.count("len.lookup-zero")
+    if lk == "dyn" and any(isinstance(v[1], float) and v[1] != int(v[1]) for v in assign.values()):
+        ctx.count("len.fractional-reference")
     if L % 8:
         ctx.count("len.not-multiple-of-8")
     if offset % 8:
@@ -121,11 +125,19 @@ def length_variants(rng, L, unit_bits):
                     else:
                         out.append((ir.DynLen("LEN", False, slope, intercept), {"LEN": ("float", 0.25, x)}))
             out.append((ir.DynLen("LEN", calibrated, None, L - 3 if False else None), {"LEN": ("int", L, L)}))
-    # lookup: second entry matches
+    # (c) the referenced VALUE is fractional but the computed length is integral (2.5 "bytes" x 8 = 20 bits)
+    for slope, frac in ((8, 0.5), (16, 0.25), (2, 0.5), (8, 0.125), (32, 0.75)):
+        for intercept in (0, 4, -int(slope * frac)):
+            rem = L - intercept
+            x = rem / slope
+            if rem >= 0 and x != int(x) and slope * x + intercept == L:
+                out.append((ir.DynLen("LEN", True, slope, intercept), {"LEN": ("float", float(x), 5)}))
+    # lookup: second entry matches (first match wins: the later entry also matches). L == 0 included: a looked-up
+    # length of 0 bits is a legal value, not "no match"
     lk = ir.Lookup((((ir.Comparison("MODE", "9"),), L + 8), ((ir.Comparison("MODE", "2", ">=", False), ir.Comparison("FLAG", "ON")), L),
                     ((ir.Comparison("MODE", "2", ">=", False),), L + 16)))
+    out.append((lk, {"MODE": ("int", 3, 3), "FLAG": ("str", "ON", 1)}))
     if L > 0:
-        out.append((lk, {"MODE": ("int", 3, 3), "FLAG": ("str", "ON", 1)}))
         out.append((lk, {"MODE": ("int", 0, 0), "FLAG": ("str", "ON", 1)}))   # no entry matches -> error expected
     return out
 
